@@ -137,6 +137,18 @@ CHECKS = {
         "fingerprint merge audit.",
    technique="explicit-state BFS of the implementation with automaton + registry-diff oracles (replay + fork snapshots)",
    ref="3/C07"),
+ "C06": dict(cat="model_checking",
+   text="Explicit-state BFS over start/add-player requests, drains, balls-in-play additions, extra-ball awards, end_ball / "
+        "end_game events, tilt and slam tilt, with environment-held waiting handlers on each of the seven lifecycle queue "
+        "events so that requests land inside every gap, for (balls_per_game, max_players) configurations on a game "
+        "without ball devices and the real tilt mode; oracle: grammar automaton over the posted lifecycle events (nesting, "
+        "player/ball numbers, turn order, extra balls, early end only after a request), balls-in-play bounds, a ball ends "
+        "iff it drained to zero or an end was requested, machine.game cleared after game_ended.",
+   note="Trusted: virtual loop, Grammar automaton in props/c06.py. Requests where the statement is silent (extra ball after "
+        "an end-game request, tilt while already tilted) are not judged. BFS depth 5 on 3 configurations (quick) / 6 on 5 "
+        "(thorough) with fingerprint merge audit.",
+   technique="explicit-state BFS of the implementation with a grammar automaton oracle (replay + fork snapshots)",
+   ref="3/C06"),
 }
 NOT_YET = "check not built yet in this revision (planned, see DESIGN.md section 7)"
 
